@@ -373,6 +373,35 @@ func (fx *FuncCtx) callInterface(st *State, sel *ast.SelectorExpr, s *types.Sele
 			fx.unsupportedf("call to %s: no contract and no body", qn)
 		}
 	}
+	// io.Reader.Read / io.Writer.Write: standard-library interface contracts (assumption A8)
+	if named, ok := recvT.(*types.Named); ok && named.Obj().Pkg() != nil && named.Obj().Pkg().Path() == "io" {
+		switch named.Obj().Name() + "." + s.Obj().Name() {
+		case "Reader.Read", "ReadWriter.Read", "ReadCloser.Read":
+			fx.eval(st, sel.X)
+			buf, ok := fx.eval(st, call.Args[0]).(SliceV)
+			if !ok {
+				fx.unsupportedf("Read into non-slice")
+			}
+			n := fx.freshConst("nread", SInt)
+			st.assume(And(Ge(n, IntLit(0)), Le(n, buf.Len)))
+			fx.checkStoreRange(st, buf, IntLit(0), n, call)
+			fx.havocRange(st, buf, IntLit(0), n)
+			sig := s.Obj().Type().(*types.Signature)
+			e, _ := fx.freshVal("read_err", sig.Results().At(1).Type())
+			return TupleV{n, e}
+		case "Writer.Write", "ReadWriter.Write":
+			fx.eval(st, sel.X)
+			buf, ok := fx.eval(st, call.Args[0]).(SliceV)
+			if !ok {
+				fx.unsupportedf("Write from non-slice")
+			}
+			n := fx.freshConst("nwritten", SInt)
+			st.assume(And(Ge(n, IntLit(0)), Le(n, buf.Len)))
+			sig := s.Obj().Type().(*types.Signature)
+			e, _ := fx.freshVal("write_err", sig.Results().At(1).Type())
+			return TupleV{n, e}
+		}
+	}
 	// dynamic type fixed by the contract (hasType): static dispatch to the concrete method
 	if v, ok := fx.dispatchKnownType(st, sel, s, call); ok {
 		return v
